@@ -75,6 +75,9 @@ def run(prog: Program, rep: Report, tier: str):
              "nothing into self.*")
     rep.rule("G9.idx-passthrough", "getitem_* methods that delegate to the seeding helper pass their own idx on")
 
+    from .c07 import member_stability, set_rng_propagation
+    set_rng_propagation(prog, rep, own, fwd, clause="C08.2")  # the injected generator reaches nested members
+    member_stability(prog, rep, own, clause="C08.2")
     wrappers = seeded_wrappers(prog, own)
     rep.floor("seeded wrapper classes (concrete, incl. subclasses)", len(wrappers), 12)
     declaring = set()
